@@ -17,7 +17,10 @@
    every LATER token of the compilation is one line short: line_exact_refuted_escape / line_exact_refuted_dollar
    (witnesses confirmed on the real scanner, see notes/Scanner-newline.md).  For every token that has no such error
    token before it the equation is the plain one (token_line_exact_clean), in particular for every token up to and
-   including the first Error token of any kind, hence for the first compile error (compile_error_line_exact). *)
+   including the first Error token of any kind (token_line_exact_first_error), hence - the parser stops at the first
+   Error token: ParserInv.parse_error_before_scan_error - for the FIRST compile error of every source, with no side
+   condition (compile_error_line_exact_first): its line is the line of the offset where the reported token ends, or,
+   for a swallowing Error token, the line on which the swallowed break stands. *)
 From Coq Require Import Strings.Byte Strings.String.
 From Coq Require Import List NArith Bool Arith Lia.
 From YV Require Import Utf8 Utf8Proofs NumText Scanner ScannerProofs Parser ParseRun Lines LinesProofs.
@@ -713,6 +716,119 @@ Proof.
   exists t, e. split; [exact Hin|]. split; [exact Hl|exact (Hx Hn)].
 Qed.
 Print Assumptions compile_error_line_exact_utf8.
+
+(* (f) the own clauses of the brief, made explicit.
+   Eof: the synthetic Eof token ends at the end of the source, so it carries the LAST line (minus the deficit). *)
+Lemma scan_loop_ends_eof : forall src fuel st pre,
+  chars_of src = pre ++ s_rest st -> s_pos st = clen pre ->
+  forall t e, In (t, e) (scan_loop_ends fuel st) -> tk t = TEof -> e = List.length src.
+Proof.
+  intros src. induction fuel as [|f IH]; intros st pre Hc Hp t e Hin Hk; [contradiction|].
+  cbn [scan_loop_ends] in Hin. destruct (scan_token st) as [t0 st'] eqn:E.
+  destruct (scan_token_exact _ _ _ E) as [k [Hk' [Hpk _]]].
+  assert (Hc' : chars_of src = (pre ++ k) ++ s_rest st') by (rewrite Hc, Hk', app_assoc; reflexivity).
+  assert (Hp' : s_pos st' = clen (pre ++ k)) by (rewrite clen_app; lia).
+  assert (Hend : tk t0 = TEof -> s_pos st' = List.length src).
+  { intros Q. pose proof (scan_progress _ _ _ E) as [_ [_ [_ [_ Hr]]]]. specialize (Hr Q).
+    rewrite Hr, app_nil_r in Hc'. rewrite Hp'. unfold clen. rewrite <- Hc', chars_of_concat_id. reflexivity. }
+  destruct (tk t0) eqn:Ek;
+    try (destruct Hin as [Q|Hin]; [inversion Q; subst; rewrite Ek in Hk; discriminate Hk|
+                                   exact (IH st' (pre ++ k) Hc' Hp' t e Hin Hk)]).
+  destruct Hin as [Q|[]]. inversion Q; subst. apply Hend. reflexivity.
+Qed.
+
+Theorem eof_line_exact : forall src, nl_cleanb src = true ->
+  forall t e, In (t, e) (scan_ends src) -> tk t = TEof ->
+    e = List.length src /\
+    tline t + swallowed src (scan_ends src) = 1 + N.of_nat (count_nl src).
+Proof.
+  intros src Hcl t e Hin Hk.
+  assert (He : e = List.length src)
+    by (exact (scan_loop_ends_eof src _ (init_sstate src) [] eq_refl eq_refl t e Hin Hk)).
+  split; [exact He|].
+  (* the Eof token is the last element *)
+  destruct (in_split _ _ Hin) as [l1 [l2 H]].
+  assert (Hl2 : l2 = []).
+  { pose proof (scan_all_spec src) as [l [t' [Hs [Ht' [Fl _]]]]].
+    rewrite <- scan_ends_tokens, H, map_app in Hs. cbn [map fst] in Hs.
+    destruct l2 as [|x l2']; [reflexivity|]. exfalso.
+    (* t would be a non-last element of l ++ [t'], hence not Eof *)
+    assert (Hlen : List.length (map fst l1 ++ t :: map fst (x :: l2')) = List.length (l ++ [t'])) by (rewrite Hs; reflexivity).
+    assert (Hnth : nth_error (l ++ [t']) (List.length (map fst l1)) = Some t) by (rewrite <- Hs; apply nth_error_app_len).
+    rewrite !app_length in Hlen. cbn [List.length map] in Hlen.
+    rewrite nth_error_app1 in Hnth by lia.
+    apply nth_error_In in Hnth. rewrite Forall_forall in Fl. exact (Fl t Hnth Hk). }
+  subst l2. pose proof (token_line_exact src Hcl l1 t e [] H) as Q. rewrite H.
+  unfold line_of_offset in Q. rewrite He, firstn_all in Q. rewrite He. exact Q.
+Qed.
+Print Assumptions eof_line_exact.
+
+(* a swallowing Error token itself: it carries the line ON WHICH THE SWALLOWED BREAK STANDS (the line of its `\` / `$`
+   when they are adjacent) - one less than the line where its text ends *)
+Lemma line_of_offset_after_nl : forall src e, byte_before_is_nl src e = true ->
+  line_of_offset src e = line_of_offset src (e - 1) + 1.
+Proof.
+  intros src [|p] H; [discriminate H|]. cbn [byte_before_is_nl] in H.
+  destruct (nth_error src p) as [b|] eqn:En; [|discriminate H].
+  replace (S p - 1)%nat with p by lia. unfold line_of_offset.
+  destruct (nth_error_split _ _ En) as [a [r [Hs Hl]]]. subst src p.
+  replace (S (List.length a)) with (List.length (a ++ [b])) by (rewrite app_length; cbn; lia).
+  replace (a ++ b :: r) with ((a ++ [b]) ++ r) by (rewrite <- app_assoc; reflexivity).
+  rewrite firstn_app, Nat.sub_diag, firstn_all. cbn [firstn]. rewrite app_nil_r.
+  rewrite <- app_assoc. cbn [app]. rewrite firstn_app, Nat.sub_diag, firstn_all. cbn [firstn]. rewrite app_nil_r.
+  rewrite count_nl_app. unfold count_nl at 2. cbn [filter]. rewrite H. cbn [List.length]. lia.
+Qed.
+
+Theorem swallowing_error_line : forall src, nl_cleanb src = true ->
+  forall l1 t e l2, scan_ends src = l1 ++ (t, e) :: l2 ->
+    Forall (fun te => tk (fst te) <> TError) l1 -> swallowb src (t, e) = true ->
+    tline t = line_of_offset src (e - 1).
+Proof.
+  intros src Hcl l1 t e l2 H F Hs.
+  destruct (token_line_exact_first_error src Hcl l1 t e l2 H F) as [Q _]. rewrite Hs in Q.
+  unfold swallowb in Hs. cbn [fst snd] in Hs. apply andb_prop in Hs as [_ Hb].
+  rewrite (line_of_offset_after_nl src e Hb) in Q. lia.
+Qed.
+Print Assumptions swallowing_error_line.
+
+(* (e') UNCONDITIONALLY exact for the FIRST compile error: the parser stops at the first Error token (ParserInv,
+   instance C), so the token whose line is reported has no Error token before it - its line is the line of the offset
+   where it ends; the one exception is a swallowing Error token, reported on the line of the swallowed break *)
+Theorem compile_error_line_exact_first : forall src l a m,
+  nl_cleanb src = true ->
+  parse_source src = PErr l a m ->
+  exists l1 t e l2, scan_ends src = l1 ++ (t, e) :: l2 /\ Forall (fun te => tk (fst te) <> TError) l1 /\
+    l = tline t /\
+    l + (if swallowb src (t, e) then 1 else 0) = line_of_offset src e /\
+    (tk t <> TError -> l = line_of_offset src e) /\
+    (swallowb src (t, e) = true -> l = line_of_offset src (e - 1)).
+Proof.
+  intros src l a m Hcl H.
+  destruct (ParserInv.parse_error_before_scan_error src l a m H) as [t [[pre [post [E F]]] Hl]].
+  rewrite <- scan_ends_tokens in E. apply map_eq_app in E. destruct E as [l1 [r [E [E1 E2]]]].
+  apply map_eq_cons in E2. destruct E2 as [[t' e] [l2 [Er [Et E3]]]]. cbn in Et. subst t' r.
+  assert (F1 : Forall (fun te => tk (fst te) <> TError) l1).
+  { rewrite <- E1 in F. rewrite Forall_map in F. exact F. }
+  exists l1, t, e, l2. split; [exact E|]. split; [exact F1|]. split; [symmetry; exact Hl|].
+  destruct (token_line_exact_first_error src Hcl l1 t e l2 E F1) as [Q1 Q2]. rewrite <- Hl.
+  split; [exact Q1|]. split; [exact Q2|].
+  intros Hs. exact (swallowing_error_line src Hcl l1 t e l2 E F1 Hs).
+Qed.
+Print Assumptions compile_error_line_exact_first.
+
+Corollary compile_error_line_exact_first_utf8 : forall src l a m,
+  valid_utf8 src = true ->
+  parse_source src = PErr l a m ->
+  exists t e, In (t, e) (scan_ends src) /\ l = tline t /\
+    (if swallowb src (t, e) then l = line_of_offset src (e - 1) else l = line_of_offset src e).
+Proof.
+  intros src l a m V H.
+  destruct (compile_error_line_exact_first src l a m (valid_nl_clean src V) H)
+    as [l1 [t [e [l2 [E [_ [Hl [Q [_ Hs]]]]]]]]].
+  exists t, e. split; [rewrite E; apply in_or_app; right; left; reflexivity|]. split; [exact Hl|].
+  destruct (swallowb src (t, e)); [apply Hs; reflexivity|lia].
+Qed.
+Print Assumptions compile_error_line_exact_first_utf8.
 
 (* ------------------------------------------------------------------ *)
 (** * 6. witnesses *)
